@@ -325,7 +325,7 @@ def bounded_mappings(ctx):
     thorough = ctx.tier == 'thorough'
     kinds_u = ['complete', 'functional', 'surjective', 'injective', 'nondecreasing']
     kinds_b = ['complete', 'functional', 'injective', 'nondecreasing']
-    ctx.bounds['mappings'] = 'unary (n,m)<=(3,4); sparse: all bipartite graphs <= {}; binary n<=3, m in 1..{}; all assignments (<=16 variables)'.format('3x3' if thorough else '2x3 and 3x2', 9 if thorough else 6)
+    ctx.bounds['mappings'] = 'unary (n,m)<=(3,4); sparse: all bipartite graphs <= {}; binary n in 0..3, m in 0..{}; all assignments (<=16 variables)'.format('3x3' if thorough else '2x3 and 3x2', 9 if thorough else 6)
     for cls in ('cnf', 'opb'):
         for n in range(0, 4):
             for m in range(0, 5):
@@ -344,10 +344,10 @@ def bounded_mappings(ctx):
                     if bad:
                         ctx.violation('force_{}_mapping:sparse:{}'.format(kind, cls), 'sparse {}x{} {} {} : {}'.format(L, R, edges, kind, bad),
                                       {'fn': 'checks.C04:replay_mapping', 'args': dict(cls=cls, mode='sparse', n=L, m=R, edges=edges, kind=kind)})
-        for n in range(1, 4):
-            for m in range(1, 10 if thorough else 7):
+        for n in range(0, 4):
+            for m in range(0, 10 if thorough else 7):        # m == 0: an empty range - complete means unsatisfiable as soon as n >= 1 (no bits, one empty clause per element)
                 for kind in kinds_b:
-                    ctx.case(('map', cls, 'binary', n, m, kind))
+                    ctx.case(('map', cls, 'binary', n, m, kind), nontrivial=n >= 1)
                     bad = eval_mapping(cls, 'binary', n, m, [], kind)
                     if bad:
                         ctx.violation('force_{}_mapping:binary:{}'.format(kind, cls), 'new_binary_mapping({},{}) {} : {}'.format(n, m, kind, bad),
